@@ -32,6 +32,7 @@ class LoopSpec:
         self.entry_hints = []
         self.modifies = []
         self.inherits = []       # (loop key, [excluded invariant names])
+        self.end_hints = []
 
 
 class Contract:
@@ -57,6 +58,7 @@ class Contract:
         self.comp_invariants = {}  # comprehension ordinal -> (name, expr) list
         self.call_hints = {}
         self.decreases = None
+        self.ghost_locals = {}
 
 
 class Ghost:
@@ -146,6 +148,11 @@ def _parse_clauses(body, c, sc, loop=None):
             loop.exit_hints.extend(a)
         elif fn == 'body_hint':
             loop.body_hints.extend(a)
+        elif fn == 'end_hint':
+            loop.end_hints.extend(a)
+        elif fn == 'ghost_local':
+            for k, v in _kw(call).items():
+                c.ghost_locals[k] = _s(v)
         elif fn == 'entry_hint':
             (loop.entry_hints if loop is not None else c.entry_hints).extend(a)
         elif fn == 'return_hint':
